@@ -24,7 +24,7 @@ def main(run):
         for st in tla.read_dump(r.dump):
             if st['nops'] == (5 if quick else 7):
                 n += 1
-                if quick and n % 7:
+                if (quick and n % 7) or (not quick and n % 11):       # a systematic sample of the maximal histories is replayed
                     continue
                 hists.append({'tid': n, 'ops': [[o[0], o[1], F.thaw(o[2])] for o in st['hist']]})
         os.remove(r.dump)
@@ -68,7 +68,7 @@ def main(run):
     # one-level nodes
     bounds = [('A', 3, 2, 2), ('B1', 3, 2, 2), ('B2', 3, 2, 2)] if quick else [('A', 4, 2, 2), ('B1', 4, 2, 2), ('B2', 4, 2, 2)]
     trees, _ = F.model_phase(run, bounds, ['InvC02'])
-    trees = F.cap(trees, 2500 if quick else 60000, rng, run) + F.random_trees(run.seed + 51, 600 if quick else 10000, max_nodes=10)
+    trees = F.cap(trees, 2500 if quick else 30000, rng, run) + F.random_trees(run.seed + 51, 600 if quick else 10000, max_nodes=10)
     for i, t in enumerate(trees):
         items.append({'t': t, 'cfgs': F.rotate_cfgs(i, rng, 1 if quick else 3)})
     ip, op = os.path.join(wd, 'trees.ndjson'), os.path.join(wd, 'trees.out')
